@@ -33,6 +33,8 @@ import (
 	"strconv"
 	"strings"
 	"sync"
+	"unicode"
+	"unicode/utf8"
 	"unsafe"
 
 	"flamingo.me/flamingo/v3/framework/flamingo"
@@ -65,6 +67,9 @@ type c11Idx struct {
 type c11Path struct {
 	Steps []c11Step `json:"steps"`
 	Raw   bool      `json:"raw"` // != path (unescaped) instead of = path
+	// Push (hex): the template is not an output of the path but the statement `- path.push('value')`, run for
+	// its effect on the list the conversion made for this render; it prints nothing
+	Push *string `json:"push,omitempty"`
 }
 
 type c11Value struct {
@@ -230,9 +235,10 @@ func c11Type(raw json.RawMessage) (reflect.Type, error) {
 				return nil, err
 			}
 			fields[i] = reflect.StructField{Name: name, Type: t}
-			if name != "" && !(name[0] >= 'A' && name[0] <= 'Z') {
+			if first, _ := utf8.DecodeRuneInString(name); name != "" && !unicode.IsUpper(first) {
 				// an unexported field (reflect.StructOf takes one when it names its package): it cannot be
-				// read through reflect's Interface(), its value is set through its address (c11SetField)
+				// read through reflect's Interface(), its value is set through its address (c11SetField).
+				// Go's rule: a name is exported when its first LETTER is upper-case, ASCII or not (Ärger, Ωmega)
 				fields[i].PkgPath = "main"
 			}
 		}
@@ -617,9 +623,9 @@ func c11Steps(steps []c11Step) (string, error) {
 	return b.String(), nil
 }
 
-func c11AST(src string, raw bool) string {
+func c11AST(src string, raw bool, buffer bool) string {
 	doc := map[string]interface{}{"type": "Block", "nodes": []interface{}{
-		map[string]interface{}{"type": "Code", "val": src, "buffer": true, "mustEscape": !raw, "isInline": true},
+		map[string]interface{}{"type": "Code", "val": src, "buffer": buffer, "mustEscape": buffer && !raw, "isInline": buffer},
 	}}
 	b, _ := json.Marshal(doc)
 	return string(b)
@@ -664,8 +670,11 @@ func runC11(c c11Case) (res c11CaseObs, err error) {
 			if err != nil {
 				return res, err
 			}
+			if p.Push != nil {
+				src += ".push(" + c11JSString(unhx(*p.Push)) + ")"
+			}
 			out[k].Src = append(out[k].Src, src)
-			files[fmt.Sprintf("template/page/v%dp%d.ast.json", k, i)] = c11AST(src, p.Raw)
+			files[fmt.Sprintf("template/page/v%dp%d.ast.json", k, i)] = c11AST(src, p.Raw, p.Push == nil)
 		}
 	}
 	if err := writeTree(dir, files); err != nil {
